@@ -582,6 +582,15 @@ pub fn driver_main(check: &dyn Check, tier: Tier, seed: u64, replay_idx: Option<
             if ws.iter().all(|w| w.done) {
                 break;
             }
+            if suspects.len() >= 12 {
+                // a dozen cases that did not come back: something systematic (or a hopelessly loaded
+                // machine). Do not spend a watchdog period on each of the remaining cases: stop here, let
+                // the first suspects be re-run in isolation below, and say that the run was cut short.
+                let left: u64 = ws.iter().filter(|w| !w.done).map(|w| (n.saturating_sub(w.next) + step - 1) / step).sum();
+                agg.inconclusive.push(format!("run stopped early after {} cases timed out or aborted; about {left} cases were not run", suspects.len()));
+                agg.inconclusive_n += 1;
+                break;
+            }
         }
         for w in ws.iter_mut() {
             w.child.kill().ok();
